@@ -729,7 +729,9 @@ class Gen(object):
         else:
             bs = ['d', 'i18n:singular', [], sing]
             bp = ['d', 'i18n:plural', [], plur]
-        kids = [ws(), bs, ws(), bp, ws()]
+        # white space around the branches, sometimes none (also none after the last branch of the
+        # element form: ChooseDirective.extract as repaired, fix 69f26ed)
+        kids = [k for k in [ws(), bs, ws(), bp, ws()] if k[0] != 't' or r.random() < 0.85]
         pv = ', '.join(params)
         if r.random() < 0.8:
             value = '%s; %s' % (nv, pv) if params or r.random() < 0.5 else nv
